@@ -331,6 +331,9 @@ static void op_compare(handle *h, vf_rng *r)
 		tmp[n] = 0; probe(h, tmp, n + 1, "extended by NUL");
 	}
 	probe(h, tmp, 0, "empty");
+	if (n && memchr(h->sh, 0, n)) {
+		probe(h, tmp, static_cast<const uint8_t *>(memchr(h->sh, 0, n)) - h->sh, "up to embedded NUL");
+	}
 	if (h->state == SText && !memchr(h->sh, 0, n)) {
 		/* NUL-terminated name with negative length */
 		char *name = static_cast<char *>(vf_xalloc(n + 1));
